@@ -128,7 +128,8 @@ def cases(seed, tier):
     out = []
     for scope in ('private', 'public'):
         for actor in ('other', 'owner', 'admin', 'member-pending',
-                      'member-accepted', 'member-rejected'):
+                      'member-accepted', 'member-rejected',
+                      'member-revoked', 'member-left'):
             out.append({'part': 'db', 'scope': scope, 'actor': actor})
     for scope in ('private', 'public'):
         out.append({'part': 'rest', 'scope': scope})
@@ -165,7 +166,13 @@ def _setup(scope, actor):
     # pA's are public, since public names are shared by everybody
     fxb = fixtures.make('pB', tag='one', names=names) if scope == 'private' \
         else fixtures.make('pB', tag='two')
-    if actor.startswith('member'):
+    if actor in ('member-revoked', 'member-left'):
+        # an accepted share that the member used and that was then
+        # withdrawn (by the owner) / given up (by the member)
+        fixtures.share_history(fxa['workflow']['id'],
+                               fxa['workflow']['name'], 'pA', 'pM',
+                               actor.split('-')[1])
+    elif actor.startswith('member'):
         fixtures.share(fxa['workflow']['id'], 'pA', 'pM',
                        actor.split('-')[1])
     return fxa, fxb
@@ -279,17 +286,27 @@ def rest_part(case, res):
             if t['name'].endswith((':create', ':validate', ':list')) or \
                     t['res'] in c16.ADMIN_RES:
                 continue
-            for actor in ('pB', 'pM'):
+            # pB+: a non-admin user of pB holding roles whose *names*
+            # contain the word admin (only the role 'admin' itself makes an
+            # administrator)
+            for actor in ('pB', 'pM', 'pB+'):
                 if actor == 'pM' and t['res'] == 'members':
                     continue   # a member reads / answers its own offer
                 R.reset()
                 fxa = fixtures.make('pA', tag='one', scope=scope)
-                fixtures.make(actor, tag='two')
+                project = actor.rstrip('+')
+                fixtures.make(project, tag='two')
                 if actor == 'pM':
                     fixtures.share(fxa['workflow']['id'], 'pA', 'pM',
                                    'pending')
                 dump0 = R.dump()
-                o = c16._send(R, t, fxa, True, project=actor)
+                roles = 'member'
+                if actor == 'pB+':
+                    roles = ['member,load-balancer_admin',
+                             'project_administrator,member',
+                             'admin_readonly', 'member, admins'][
+                        len(res['keys']) % 4]
+                o = c16._send(R, t, fxa, True, project=project, roles=roles)
                 cell = 'REST %s as %s on %s' % (t['name'], actor, scope)
                 res['executions'] += 1
                 res['monitor_evaluations']['tenant-isolation'] += 1
